@@ -302,6 +302,126 @@ example : ((Sieve.new 0 1 (FB.ofPrimes #[3, 5, 32771, 65537]) #[1, 2, 7, 65000] 
       (s.tables.size, s.ltables.size, s.tables.all fun t => t.nOverflows == 0)) = some (2, 0, true) := by
   decide +kernel
 
+/-- helper: the table term in closed form (the part of `accumulator_spec_tables` about `tableHits`). -/
+theorem tableHits_closed {fb : FB} (hfb : fb.WF) {r1 r2 : Array Nat} (hr : RootsOK fb r1 r2)
+    (hd : RootsDistinct fb r1 r2) {offset : Int} {nblocks : Nat} {recycled : Option (Array Table × Array LTable)}
+    (hrec : RecycledBlens nblocks recycled)
+    {s0 s1 s : State} (h0 : Sieve.new offset nblocks fb r1 r2 recycled = some s0)
+    {b : Nat} (hb : b < nblocks) (h1 : runBlocks fb b s0 = some s1) (h2 : sieveBlock fb s1 = some s)
+    {nS : Nat} (hnS : fb.ibl[16]? = some nS) (hl0 : s.ltables.size = 0)
+    (hov : ∀ (ti : Nat) (t : Table), s.tables[ti]? = some t → t.nOverflows = 0)
+    {th : List (Nat × Nat)} (hth : tableHits s = some th) :
+    ∀ x, x < 32768 →
+      hitSum th x = rangeSum (tabF fb r1 r2 (nblocks * BLOCK) (b * BLOCK + x)) nS (fb.primes.size - nS) := by
+  have hrecOK := hrec.ok
+  obtain ⟨hb0, hn0, _, hinv0⟩ := new_spec hfb hr hrecOK hnS h0
+  obtain ⟨hinv1, hb1, _, _⟩ := runBlocks_spec hfb hnS b 0 s0 s1 hinv0 h1
+  obtain ⟨hinv2, _, hb2, _, _, ht2, hlt2, _⟩ := sieveBlock_spec hfb hnS hinv1 h2
+  obtain ⟨et, elt⟩ := runBlocks_tables fb b s0 s1 h1
+  have etab : s.tables = s0.tables := ht2.trans et
+  have hblk : s.blkNo = b := by rw [hb2, hb1, hb0]; omega
+  obtain ⟨maxprime, hmax, hts, hlts⟩ := hinv2.tsize
+  have hml : bitlen maxprime ≤ 18 := by omega
+  have hex : TablesExact fb r1 r2 (nblocks * BLOCK) nblocks s.tables := by
+    rw [etab]; exact new_tablesExact hrec h0 (by rw [← etab]; exact hov)
+  have hnd : ∀ (tidx idx1 : Nat), fb.ibl[tidx + 16]? = some idx1 → ∀ pidx, idx1 ≤ pidx →
+      (offsL fb r1 r2 (nblocks * BLOCK) pidx).Nodup := by
+    intro tidx idx1 hi pidx hle
+    apply offsL_nodup hfb hr hd
+    intro p hp
+    have := hfb.ibl_spec _ _ _ _ hi hp
+    have h16 : ¬ bitlen p < 15 + 1 := by omega
+    rw [bitlen_lt_succ_iff] at h16
+    norm_num at h16; exact h16
+  intro x hx'
+  have hsum := tableHits_sum hex (by omega) hl0 hnd (x := x) (by simp only [BLOCK]; exact hx') hth
+  rw [hblk, tableSum_collapse hfb hr hnS hmax hml hts] at hsum
+  exact hsum
+
+/-- `accumulator_no_overflow_tables`: `accumulator_no_overflow` for factor bases below 2^18 on the path of
+`accumulator_spec_tables` (no counted overflow in the size-class tables, distinct roots for the primes ≥ 32768): if at
+every position `x` the primes with a root at `x` — non-skipped primes below the block size and ALL primes ≥ 32768 — belong
+to a finite set of primes dividing some `v ≠ 0` with `bitlen v + #primes ≤ 256` (the hypothesis of `log_sum_bound`), then
+no `+=` site of `sieve_block` overflows, table loops included: the checked model returns whenever the release model
+does, with the same bytes, and every byte is the closed form (no wrap). -/
+theorem accumulator_no_overflow_tables (fb : FB) (hfb : fb.WF) (r1 r2 : Array Nat) (hr : RootsOK fb r1 r2)
+    (hd : RootsDistinct fb r1 r2) (offset : Int) (nblocks : Nat) (recycled : Option (Array Table × Array LTable))
+    (hrec : RecycledBlens nblocks recycled)
+    (s0 s1 s : State) (h0 : Sieve.new offset nblocks fb r1 r2 recycled = some s0)
+    (b : Nat) (hb : b < nblocks) (h1 : runBlocks fb b s0 = some s1) (h2 : sieveBlock fb s1 = some s)
+    (nS : Nat) (hnS : fb.ibl[16]? = some nS) (hl0 : s.ltables.size = 0)
+    (hov : ∀ (ti : Nat) (t : Table), s.tables[ti]? = some t → t.nOverflows = 0)
+    (blk0 : Array Nat) (hrel : blkOf false fb s = some blk0)
+    (hdiv : ∀ x, x < 32768 → ∃ (ps : Finset ℕ) (v : ℕ), (∀ p ∈ ps, p.Prime) ∧ v ≠ 0 ∧ (∀ p ∈ ps, p ∣ v) ∧
+      bitlen v + ps.card ≤ 256 ∧
+      ∀ i p o, (s.idxskip ≤ 2 * i ∨ 32768 ≤ p) → fb.primes[i]? = some p → (r1[i]? = some o ∨ r2[i]? = some o) →
+        (b * 32768 + x) % p = o → p ∈ ps) :
+    blkOf true fb s = some blk0 ∧
+      ∀ x, x < 32768 → byteAt blk0 x = rangeSum (rootF fb r1 r2 b x) s.idxskip (2 * nS - s.idxskip) +
+        rangeSum (tabF fb r1 r2 (nblocks * BLOCK) (b * BLOCK + x)) nS (fb.primes.size - nS) := by
+  have hrecOK := hrec.ok
+  obtain ⟨hprev, hev⟩ := state_for_block hfb hr hrecOK h0 h1 h2 hnS
+  obtain ⟨hits, hh, _, hin, _, _, _⟩ := accumulator_hits_spec false fb s blk0 hrel
+  have hh' := hh
+  unfold allHits at hh'
+  simp only [Option.bind_eq_bind, Option.bind_eq_some_iff, Option.some.injEq] at hh'
+  obtain ⟨l, hl, th, hth, rfl⟩ := hh'
+  have htab := tableHits_closed hfb hr hd hrec h0 hb h1 h2 hnS hl0 hov hth
+  have hnn := hfb.ibl_le _ _ hnS
+  have hbound : ∀ x, x < 32768 → ∃ (ps : Finset ℕ) (v : ℕ), (∀ p ∈ ps, p.Prime) ∧ v ≠ 0 ∧ (∀ p ∈ ps, p ∣ v) ∧
+      bitlen v + ps.card ≤ 256 ∧ hitSum (l ++ th) x ≤ ∑ p ∈ ps, bitlen p := by
+    intro x hx
+    obtain ⟨ps, v, hp, hv, hdv, hbd, hmem⟩ := hdiv x hx
+    refine ⟨ps, v, hp, hv, hdv, hbd, ?_⟩
+    rw [hitSum_append, htab x hx, smallHits_sum hfb hnS hev hprev (by simpa [BLOCK] using hx) hl,
+      ← Finset.sum_filter_add_sum_filter_not ps (fun p => p < 32768) bitlen]
+    refine add_le_add (smallSum_le hfb hnS hev hprev _ ?_) (tabSum_le hfb hr _ ?_)
+    · intro i p hge hi hpi hpos
+      have hps := prime_small hfb hnS (k := 2 * i) (by omega) (by
+        have : (2 * i) / 2 = i := by omega
+        rw [this]; exact hpi)
+      refine Finset.mem_filter.2 ⟨?_, hps⟩
+      obtain ⟨o1, o2, ho1, ho2, _⟩ := hr i p hpi
+      have e0 : (2 * i) / 2 = i := by omega
+      have e1 : (2 * i + 1) / 2 = i := by omega
+      rw [slotF_eq_rootF hfb hnS hprev (by omega) hge, slotF_eq_rootF hfb hnS hprev (by omega) (by omega)] at hpos
+      unfold rootF at hpos
+      simp only [e0, e1, hpi, ho1, ho2] at hpos
+      by_cases c0 : ((2 * i) % 2 = 0 ∨ o1 ≠ o2) ∧ (b * BLOCK + x) % p = (if (2 * i) % 2 = 0 then o1 else o2)
+      · have m0 : (2 * i) % 2 = 0 := by omega
+        simp only [m0, if_true] at c0
+        exact hmem i p o1 (Or.inl hge) hpi (Or.inl ho1) (by simpa [BLOCK] using c0.2)
+      · rw [if_neg c0, Nat.zero_add] at hpos
+        by_cases c1 : ((2 * i + 1) % 2 = 0 ∨ o1 ≠ o2) ∧
+            (b * BLOCK + x) % p = (if (2 * i + 1) % 2 = 0 then o1 else o2)
+        · have m1 : ¬ (2 * i + 1) % 2 = 0 := by omega
+          simp only [m1, if_false] at c1
+          exact hmem i p o2 (Or.inl hge) hpi (Or.inr ho2) (by simpa [BLOCK] using c1.2)
+        · rw [if_neg c1] at hpos; omega
+    · intro i p hge hpi hpos
+      have hbig : 32768 ≤ p := by
+        have := hfb.ibl_spec _ _ _ _ hnS hpi
+        have h16 : ¬ bitlen p < 15 + 1 := by omega
+        rw [bitlen_lt_succ_iff] at h16
+        norm_num at h16; exact h16
+      refine Finset.mem_filter.2 ⟨?_, by omega⟩
+      obtain ⟨o1, o2, ho1, ho2, _⟩ := hr i p hpi
+      unfold tabF at hpos
+      simp only [hpi, ho1, ho2] at hpos
+      by_cases c : b * BLOCK + x < nblocks * BLOCK ∧ ((b * BLOCK + x) % p = o1 ∨ (b * BLOCK + x) % p = o2)
+      · rcases c.2 with c1 | c2
+        · exact hmem i p o1 (Or.inr hbig) hpi (Or.inl ho1) (by simpa [BLOCK] using c1)
+        · exact hmem i p o2 (Or.inr hbig) hpi (Or.inr ho2) (by simpa [BLOCK] using c2)
+      · rw [if_neg c] at hpos; omega
+  obtain ⟨blk, e1, e2, e3⟩ := accumulator_no_overflow_partial fb s (l ++ th) hh hin hbound
+  rw [hrel] at e2
+  have := Option.some.inj e2
+  subst this
+  refine ⟨e1, ?_⟩
+  intro x hx
+  rw [e3 x, hitSum_append, htab x hx, class_loops_cover fb hfb r1 r2 hr offset nblocks recycled hrecOK s0 s1 s h0 b h1
+    h2 nS hnS l hl x hx]
+
 /-- `accumulator_no_overflow_small`: for factor bases whose primes are all below the block size, under the hypothesis of
 `log_sum_bound` — at every position `x` the non-skipped primes with a root at `x` (true roots: they divide the
 polynomial value) all belong to a finite set of primes dividing some `v ≠ 0` with `bitlen v + #primes ≤ 256` — no `+=`
